@@ -741,7 +741,10 @@ def execute(sc: dict, ch: Choices, storage_dir: Optional[str], storage_obj=None,
         if prelude:
             # an earlier run_tasks call of the same interpreter (same simulated OS) with another configuration
             from .tasklib import TN
-            p_inner = {'serial': SerialRunnerBackend, 'fork': ForkRunnerBackend, 'spawn': SpawnRunnerBackend}.get(backend)
+            p_backend = prelude.get('backend') or backend
+            if sim is None and p_backend in ('fork', 'spawn'):
+                p_backend = backend
+            p_inner = {'serial': SerialRunnerBackend, 'fork': ForkRunnerBackend, 'spawn': SpawnRunnerBackend}.get(p_backend)
             if p_inner is not None:
                 old_fail, probe.fail = probe.fail, {}
                 keep_mode = None
